@@ -10,10 +10,14 @@ Event scripts (JSON-able lists):
             ['L', hex]      same, but the session header's payload-length byte is one too large
             ['M']           a datagram whose RMCP version byte is not 6
             ['T']           socket.timeout
+            ['P']           an RMCP presence pong (queued by the fake socket itself when a presence ping is sent)
   ipmb-dev  ['F', dt, hex]  select() says readable after dt ticks; os.read returns len-byte + frame
   Aardvark  ['L', dt, hex]  (ipmb-dev only) the length byte is wrong
             ['E', dt]       readable after dt ticks, the read raises OSError
             ['I']           nothing arrives: select()/poll() waits the whole timeout, returns empty
+
+RMCP session operations (`run_rmcp_op`): establish_session / close_session run on the real object; every
+`_send_and_receive` call inside them is observed like a plain request of `run_rmcp` and gets its own script.
 
 A script that runs out behaves like an endless sequence of ['T'] / ['I'].
 RMCP: the datagrams of a script that a request did not read STAY in the socket (`FakeSock.arrived`) and
@@ -77,11 +81,25 @@ def rmcp_wrap(frame, len_delta=0, version=6):
 def rmcp_payload(pdu):
     """IPMB frame of a datagram sent by the client (no session: auth type none)."""
     pdu = bytes(pdu)
-    if len(pdu) < 14 or pdu[0] != 6 or pdu[3] != 7 or pdu[4] != 0:
+    if len(pdu) < 14 or pdu[0] != 6 or pdu[3] != 7:
         return None
+    if pdu[4] != 0:
+        # inside a session with an authentication type other than none (v1.5 6.11.7: 16 bytes of
+        # authentication code between session id and payload length)
+        if len(pdu) < 30 or pdu[29] != len(pdu) - 30:
+            return None
+        return pdu[30:]
     if pdu[13] != len(pdu) - 14:
         return None
     return pdu[14:]
+
+
+def asf_pong(tag=0xff):
+    """RMCP Presence Pong (ASF 2.0 3.2.4.3): RMCP header class ASF; IANA 4542, message type 40h, tag, reserved,
+    data length 16; IANA 4542, OEM-defined 0, supported entities 81h (IPMI supported, ASF 1.0), supported
+    interactions 0, six reserved bytes."""
+    return bytes([6, 0, 0xff, 0x06]) + (4542).to_bytes(4, 'big') + bytes([0x40, tag, 0, 16]) + \
+        (4542).to_bytes(4, 'big') + bytes(4) + bytes([0x81, 0]) + bytes(6)
 
 
 # ------------------------------------------------------------------ RMCP
@@ -101,6 +119,8 @@ class FakeSock(object):
         self.taken = 0             # datagrams taken from `arrived` by blocking reads
         self.drained = 0           # datagrams taken from `arrived` by non-blocking reads
         self.timeout = 2.0
+        self.ping_mode = 'pong'    # what happens to an RMCP presence ping: 'pong' (answered) | 'lost'
+        self.pings = []            # ASF datagrams sent (they are not requests: not in `sent`)
 
     def settimeout(self, t):
         self.timeout = t
@@ -109,10 +129,20 @@ class FakeSock(object):
         return self.timeout
 
     def sendto(self, pdu, addr):
-        self.sent.append(bytes(pdu))
+        pdu = bytes(pdu)
+        if len(pdu) > 3 and pdu[0] == 6 and pdu[3] == 0x06:
+            # RMCP class ASF: the presence ping of establish_session; the pong is queued behind whatever
+            # is still unread in the socket (event ['P'])
+            self.pings.append(pdu)
+            if self.ping_mode == 'pong':
+                self.arrived.append(['P'])
+            return
+        self.sent.append(pdu)
 
     def _deliver(self, ev):
         k = ev[0]
+        if k == 'P':
+            return (asf_pong(), ('bmc', 623))
         if k == 'M':
             return (rmcp_wrap(b'\x20\x1c\xc4\x81\x00\x01\x00\x7e', version=5), ('bmc', 623))
         if k == 'F':
@@ -210,6 +240,92 @@ def run_rmcp(iface, req, events):
             'seq': iface.next_sequence_number, 'queue': rmcp_queue(iface), 'pre_sock': pre_sock,
             'drained': sock.drained, 'seen': seen, 'left': [list(e) for e in sock.arrived] + sock_events(sock.script),
             'timeout_after': sock.timeout}
+
+
+# ------------------------------------------------------------------ RMCP: session operations as request sequences
+def make_session(user='admin', password='secret'):
+    """the application's Session object (one per interface object, as `Ipmi.session`)"""
+    from pyipmi.session import Session
+    s = Session()
+    s.set_session_type_rmcp('bmc', 623)
+    s.set_auth_type_user(user, password)
+    return s
+
+
+def _tag_of(e):
+    def r():
+        raise e
+    return _outcome(r)
+
+
+def run_rmcp_op(iface, session, step):
+    """`establish_session(session)` / `close_session()` on a (possibly used) Rmcp object.  The requests such an
+    operation makes are requests on the interface like any other: every call of `_send_and_receive` inside it is
+    observed exactly as `run_rmcp` observes a plain request (state before, script of arrivals for THIS request =
+    step['scripts'][k], bytes written, what was read, state after) - nothing is changed in what the code does.
+    -> {'out': outcome of the operation, 'inner': [observation of request k, with 'req' = the request as made]}"""
+    sock = iface._sock
+    scripts = step.get('scripts') or []
+    inner = []
+    real = iface._send_and_receive            # the class's method, bound
+
+    def observed(target, lun, netfn, cmdid, payload):
+        k = len(inner)
+        events = scripts[k] if k < len(scripts) else []
+        sock.arrived = sock.arrived + sock_events(sock.script)
+        pre_sock = [list(e) for e in sock.arrived]
+        sock.script = [list(e) for e in events]
+        sock.sent = []
+        sock.consumed = sock.taken = sock.drained = 0
+        req = {'rs_sa': target.ipmb_address, 'netfn': netfn, 'lun': lun, 'cmd': cmdid,
+               'payload': bytes(bytearray(payload)).hex()}
+        if target.routing:
+            req['routing'] = [[h.rq_sa, h.rs_sa, h.channel] for h in target.routing]
+        r = {'req': req, 'pre_seq': iface.next_sequence_number, 'pre_q': rmcp_queue(iface), 'pre_sock': pre_sock,
+             'events': [list(e) for e in events]}
+        inner.append(r)
+        err = None
+        try:
+            v = real(target, lun, netfn, cmdid, payload)
+            r['out'] = ('ok', bytes(bytearray(v)))
+        except Exception as e:  # noqa
+            err = e
+            r['out'] = _tag_of(e)
+        r.update({'tx': [rmcp_payload(p) for p in sock.sent], 'consumed': sock.taken + sock.consumed,
+                  'seq': iface.next_sequence_number, 'queue': rmcp_queue(iface), 'drained': sock.drained,
+                  'seen': pre_sock[sock.drained:sock.drained + sock.taken] + [list(e) for e in events[:sock.consumed]],
+                  'left': [list(e) for e in sock.arrived] + sock_events(sock.script), 'timeout_after': sock.timeout})
+        if err is not None:
+            raise err
+        return v
+
+    import pyipmi.interfaces.rmcp as R
+    saved = R.random.randrange
+    # what has been delivered since the last request is in the socket when the operation starts
+    sock.arrived = sock.arrived + sock_events(sock.script)
+    sock.script = []
+    sock.ping_mode = step.get('ping', 'pong')
+    sock.pings = []
+    iface._send_and_receive = observed
+    R.random.randrange = lambda a, z: 0x01020304
+    try:
+        if 'establish' in step:
+            e = step['establish']
+            session._priv_level = e.get('priv', 4)
+
+            def op():
+                iface.establish_session(session)
+                return b''
+        else:
+            def op():
+                iface.close_session()
+                return b''
+        out = _outcome(op)
+    finally:
+        del iface._send_and_receive
+        R.random.randrange = saved
+        sock.ping_mode = 'pong'
+    return {'out': out, 'inner': inner, 'pings': len(sock.pings)}
 
 
 # ------------------------------------------------------------------ virtual time
